@@ -49,6 +49,9 @@ struct Span {
     end: usize,
 }
 
+/// A state of the script data part of the tokenizer
+struct ScriptState(fn(&mut Tokenizer) -> Option<ScriptState>);
+
 pub struct Tokenizer {
     reader: Vec<u8>,
     token: TokenType,
@@ -520,311 +523,264 @@ impl Tokenizer {
     }
 
     fn read_script(&mut self) {
-        self.read_script_data();
+        // Each state reads some bytes and gives the next one: run them in a loop, the depth of the stack must not
+        // depend on the length of the script
+        let mut state = Some(ScriptState(Self::read_script_data));
+
+        while let Some(ScriptState(read)) = state {
+            state = read(self);
+        }
+
         self.data.end = self.raw.end;
     }
 
-    fn read_script_data(&mut self) {
+    fn read_script_data(&mut self) -> Option<ScriptState> {
         let byte = self.read_byte() as char;
 
         if self.err.is_some() {
-            return;
+            return None;
         }
 
         if byte == '<' {
-            self.read_script_data_less_than_sign();
-
-            return;
+            return Some(ScriptState(Self::read_script_data_less_than_sign));
         }
 
-        self.read_script_data();
+        Some(ScriptState(Self::read_script_data))
     }
 
-    fn read_script_data_less_than_sign(&mut self) {
+    fn read_script_data_less_than_sign(&mut self) -> Option<ScriptState> {
         let byte = self.read_byte() as char;
 
         if self.err.is_some() {
-            return;
+            return None;
         }
 
         match byte {
-            '/' => {
-                self.read_script_data_end_tag_open();
-            }
-            '!' => {
-                self.read_script_data_escape_start();
-            }
+            '/' => Some(ScriptState(Self::read_script_data_end_tag_open)),
+            '!' => Some(ScriptState(Self::read_script_data_escape_start)),
             _ => {
                 self.raw.end -= 1;
-                self.read_script_data();
+
+                Some(ScriptState(Self::read_script_data))
             }
         }
     }
 
-    fn read_script_data_end_tag_open(&mut self) {
+    fn read_script_data_end_tag_open(&mut self) -> Option<ScriptState> {
         if self.read_raw_end_tag() || self.err.is_some() {
-            return;
+            return None;
         }
 
-        self.read_script_data();
+        Some(ScriptState(Self::read_script_data))
     }
 
-    fn read_script_data_escape_start(&mut self) {
+    fn read_script_data_escape_start(&mut self) -> Option<ScriptState> {
         let byte = self.read_byte() as char;
 
         if self.err.is_some() {
-            return;
+            return None;
         }
 
         if byte == '-' {
-            self.read_script_data_escape_start_dash();
-
-            return;
+            return Some(ScriptState(Self::read_script_data_escape_start_dash));
         }
 
         self.raw.end -= 1;
-        self.read_script_data();
+
+        Some(ScriptState(Self::read_script_data))
     }
 
-    fn read_script_data_escape_start_dash(&mut self) {
+    fn read_script_data_escape_start_dash(&mut self) -> Option<ScriptState> {
         let byte = self.read_byte() as char;
 
         if self.err.is_some() {
-            return;
+            return None;
         }
 
         if byte == '-' {
-            self.read_script_data_escaped_dash_dash();
-
-            return;
+            return Some(ScriptState(Self::read_script_data_escaped_dash_dash));
         }
 
         self.raw.end -= 1;
-        self.read_script_data();
+
+        Some(ScriptState(Self::read_script_data))
     }
 
-    fn read_script_data_escaped(&mut self) {
+    fn read_script_data_escaped(&mut self) -> Option<ScriptState> {
         let byte = self.read_byte() as char;
 
         if self.err.is_some() {
-            return;
+            return None;
         }
 
         match byte {
-            '-' => {
-                self.read_script_data_escaped_dash();
-            }
-            '<' => {
-                self.read_script_data_escaped_less_than_sign();
-            }
-            _ => {
-                self.read_script_data_escaped();
-            }
+            '-' => Some(ScriptState(Self::read_script_data_escaped_dash)),
+            '<' => Some(ScriptState(Self::read_script_data_escaped_less_than_sign)),
+            _ => Some(ScriptState(Self::read_script_data_escaped)),
         }
     }
 
-    fn read_script_data_escaped_dash(&mut self) {
+    fn read_script_data_escaped_dash(&mut self) -> Option<ScriptState> {
         let byte = self.read_byte() as char;
 
         if self.err.is_some() {
-            return;
+            return None;
         }
 
         match byte {
-            '-' => {
-                self.read_script_data_escaped_dash_dash();
-            }
-            '<' => {
-                self.read_script_data_escaped_less_than_sign();
-            }
-            _ => {
-                self.read_script_data_escaped();
-            }
+            '-' => Some(ScriptState(Self::read_script_data_escaped_dash_dash)),
+            '<' => Some(ScriptState(Self::read_script_data_escaped_less_than_sign)),
+            _ => Some(ScriptState(Self::read_script_data_escaped)),
         }
     }
 
-    fn read_script_data_escaped_dash_dash(&mut self) {
+    fn read_script_data_escaped_dash_dash(&mut self) -> Option<ScriptState> {
         let byte = self.read_byte() as char;
 
         if self.err.is_some() {
-            return;
+            return None;
         }
 
         match byte {
-            '-' => {
-                self.read_script_data_escaped_dash_dash();
-            }
-            '<' => {
-                self.read_script_data_escaped_less_than_sign();
-            }
-            '>' => {
-                self.read_script_data();
-            }
-            _ => {
-                self.read_script_data_escaped();
-            }
+            '-' => Some(ScriptState(Self::read_script_data_escaped_dash_dash)),
+            '<' => Some(ScriptState(Self::read_script_data_escaped_less_than_sign)),
+            '>' => Some(ScriptState(Self::read_script_data)),
+            _ => Some(ScriptState(Self::read_script_data_escaped)),
         }
     }
 
-    fn read_script_data_escaped_less_than_sign(&mut self) {
+    fn read_script_data_escaped_less_than_sign(&mut self) -> Option<ScriptState> {
         let byte = self.read_byte() as char;
 
         if self.err.is_some() {
-            return;
+            return None;
         }
 
         if byte == '/' {
-            self.read_script_data_escaped_end_tag_open();
-
-            return;
+            return Some(ScriptState(Self::read_script_data_escaped_end_tag_open));
         }
 
         if byte.is_ascii_alphabetic() {
-            self.read_script_data_double_escape_start();
-
-            return;
+            return Some(ScriptState(Self::read_script_data_double_escape_start));
         }
 
         self.raw.end -= 1;
-        self.read_script_data();
+
+        Some(ScriptState(Self::read_script_data))
     }
 
-    fn read_script_data_escaped_end_tag_open(&mut self) {
+    fn read_script_data_escaped_end_tag_open(&mut self) -> Option<ScriptState> {
         if self.read_raw_end_tag() || self.err.is_some() {
-            return;
+            return None;
         }
 
-        self.read_script_data_escaped();
+        Some(ScriptState(Self::read_script_data_escaped))
     }
 
-    fn read_script_data_double_escape_start(&mut self) {
+    fn read_script_data_double_escape_start(&mut self) -> Option<ScriptState> {
         self.raw.end -= 1;
 
         for i in 0.."script".len() {
             let byte = self.read_byte();
 
             if self.err.is_some() {
-                return;
+                return None;
             }
 
             if byte != b"script"[i] && byte != b"SCRIPT"[i] {
                 self.raw.end -= 1;
-                self.read_script_data_escaped();
 
-                return;
+                return Some(ScriptState(Self::read_script_data_escaped));
             }
         }
 
         let byte = self.read_byte() as char;
 
         if self.err.is_some() {
-            return;
+            return None;
         }
 
         match byte {
-            ' ' | '\n' | '\r' | '\t' | '\x0c' | '/' | '>' => {
-                self.read_script_data_double_escaped();
-            }
+            ' ' | '\n' | '\r' | '\t' | '\x0c' | '/' | '>' => Some(ScriptState(Self::read_script_data_double_escaped)),
             _ => {
                 self.raw.end -= 1;
-                self.read_script_data_escaped();
+
+                Some(ScriptState(Self::read_script_data_escaped))
             }
         }
     }
 
-    fn read_script_data_double_escaped(&mut self) {
+    fn read_script_data_double_escaped(&mut self) -> Option<ScriptState> {
         let byte = self.read_byte() as char;
 
         if self.err.is_some() {
-            return;
+            return None;
         }
 
         match byte {
-            '-' => {
-                self.read_script_data_double_escaped_dash();
-            }
-            '<' => {
-                self.read_script_data_double_escaped_less_than_sign();
-            }
-            _ => {
-                self.read_script_data_double_escaped();
-            }
+            '-' => Some(ScriptState(Self::read_script_data_double_escaped_dash)),
+            '<' => Some(ScriptState(Self::read_script_data_double_escaped_less_than_sign)),
+            _ => Some(ScriptState(Self::read_script_data_double_escaped)),
         }
     }
 
-    fn read_script_data_double_escaped_dash(&mut self) {
+    fn read_script_data_double_escaped_dash(&mut self) -> Option<ScriptState> {
         let byte = self.read_byte() as char;
 
         if self.err.is_some() {
-            return;
+            return None;
         }
 
         match byte {
-            '-' => {
-                self.read_script_data_double_escaped_dash_dash();
-            }
-            '<' => {
-                self.read_script_data_double_escaped_less_than_sign();
-            }
-            _ => {
-                self.read_script_data_double_escaped();
-            }
+            '-' => Some(ScriptState(Self::read_script_data_double_escaped_dash_dash)),
+            '<' => Some(ScriptState(Self::read_script_data_double_escaped_less_than_sign)),
+            _ => Some(ScriptState(Self::read_script_data_double_escaped)),
         }
     }
 
-    fn read_script_data_double_escaped_dash_dash(&mut self) {
+    fn read_script_data_double_escaped_dash_dash(&mut self) -> Option<ScriptState> {
         let byte = self.read_byte() as char;
 
         if self.err.is_some() {
-            return;
+            return None;
         }
 
         match byte {
-            '-' => {
-                self.read_script_data_double_escaped_dash_dash();
-            }
-            '<' => {
-                self.read_script_data_double_escaped_less_than_sign();
-            }
-            '>' => {
-                self.read_script_data();
-            }
-            _ => {
-                self.read_script_data_double_escaped();
-            }
+            '-' => Some(ScriptState(Self::read_script_data_double_escaped_dash_dash)),
+            '<' => Some(ScriptState(Self::read_script_data_double_escaped_less_than_sign)),
+            '>' => Some(ScriptState(Self::read_script_data)),
+            _ => Some(ScriptState(Self::read_script_data_double_escaped)),
         }
     }
 
-    fn read_script_data_double_escaped_less_than_sign(&mut self) {
+    fn read_script_data_double_escaped_less_than_sign(&mut self) -> Option<ScriptState> {
         let byte = self.read_byte() as char;
 
         if self.err.is_some() {
-            return;
+            return None;
         }
 
         if byte == '/' {
-            self.read_script_data_double_escaped_end();
-
-            return;
+            return Some(ScriptState(Self::read_script_data_double_escaped_end));
         }
 
         self.raw.end -= 1;
-        self.read_script_data_double_escaped();
+
+        Some(ScriptState(Self::read_script_data_double_escaped))
     }
 
-    fn read_script_data_double_escaped_end(&mut self) {
+    fn read_script_data_double_escaped_end(&mut self) -> Option<ScriptState> {
         if self.read_raw_end_tag() {
             self.raw.end += "</script>".len();
-            self.read_script_data_escaped();
 
-            return;
+            return Some(ScriptState(Self::read_script_data_escaped));
         }
 
         if self.err.is_some() {
-            return;
+            return None;
         }
 
-        self.read_script_data_double_escaped();
+        Some(ScriptState(Self::read_script_data_double_escaped))
     }
 
     fn read_comment(&mut self) {
